@@ -142,9 +142,17 @@ Disturbed(o) == Faults(o) # {} \/ HookFailed(o) \/ (o.short /\ ~o.res.conn)
 NConns(o) == Len(o.closed)
 (* the last deadline operation on connection ci cleared the deadline and did not fail *)
 SDs(o, ci) == {i \in DOMAIN o.ops : o.ops[i].c = ci /\ o.ops[i].kind = "SD"}
+(* the read and the write deadline, folded over the deadline operations that succeeded: SetDeadline sets both, *)
+(* SetReadDeadline / SetWriteDeadline one of them (how an implementation clears them is not prescribed)       *)
+RECURSIVE ArmFold(_, _, _, _)
+ArmFold(o, ci, i, st) ==
+  IF i > Len(o.ops) THEN st
+  ELSE LET op == o.ops[i] IN
+       IF op.c # ci \/ ~IsDL(op) \/ op.flt # "" THEN ArmFold(o, ci, i + 1, st)
+       ELSE ArmFold(o, ci, i + 1, [r |-> IF op.kind \in {"SD", "SRD"} THEN ~op.zero ELSE st.r,
+                                   w |-> IF op.kind \in {"SD", "SWD"} THEN ~op.zero ELSE st.w])
 NoDeadlineLeft(o, ci) ==
-  LET S == SDs(o, ci) IN
-  S # {} => LET m == CHOOSE x \in S : \A y \in S : y <= x IN o.ops[m].zero /\ o.ops[m].flt = ""
+  LET st == ArmFold(o, ci, 1, [r |-> FALSE, w |-> FALSE]) IN ~st.r /\ ~st.w
 EverArmed(o, ci) == \E i \in SDs(o, ci) : ~o.ops[i].zero
 
 (***************************************************************************)
